@@ -269,6 +269,17 @@ pub fn run_case_a(case: &CaseA, seed: u64, l: &mut Local) {
     w.monitor(h);
     w.set_ip_check_interval(h, 3);
     w.stop_browse(h, T1);
+    w.browse_cache(h, T2);
+    w.stop_resolve_hostname(h, HOSTNAME);
+    w.verify(h, "svc0._t._udp.local.", 1000);
+    w.set_service_name_len_max(h, 30);
+    w.enable_interface(h, vec![mdns_sd::IfKind::All]);
+    w.disable_interface(h, vec![mdns_sd::IfKind::IPv6]);
+    w.accept_unsolicited(h, true);
+    w.set_multicast_loop_v4(h, true);
+    w.set_multicast_loop_v6(h, false);
+    // (another shutdown is a call like any other)
+    w.shutdown(h);
     for e in w.trace.entries[mark..].iter() {
         if let Ev::Api { call, result, .. } = &e.ev {
             l.act("X3-after");
@@ -633,6 +644,8 @@ pub fn run_case_b(seed: u64, l: &mut Local) {
     match daemon.shutdown() {
         Err(_) => {}
         Ok(rx) => {
+            // the status Shutdown was received above: this call, like every other, has to be refused
+            l.violate(Violation::new("X3", "X3/real/call-after-shutdown-not-refused/shutdown", "shutdown() issued after Shutdown was received returned Ok").with(json!({"seed": seed})));
             let mut got = false;
             let r = Reply::Status(rx);
             let start = Instant::now();
@@ -692,7 +705,7 @@ pub fn run(report: &Report, tier: &Tier) {
     });
     report.extra("part_a_exhaustive", json!({"n_max": n_max, "cases": exhaustive_cases, "done": done, "exhaustive": done == exhaustive_cases}));
     // Part A sampled, longer sequences
-    let sampled: u64 = if tier.thorough { 60_000 } else { 600 };
+    let sampled: u64 = if tier.thorough { 300_000 } else { 600 };
     run_parallel(report, sampled, threads(), tier.budget_s * 0.3, |i, l| {
         let mut rng = Rng::new(util::mix(seed, 0xC14_A000 + i));
         let n = 2 + rng.usize(7);
@@ -705,12 +718,12 @@ pub fn run(report: &Report, tier: &Tier) {
         run_case_a(&case, util::mix(seed, 0xC14_B000 + i), l);
     });
     // Part A2: calls accepted in the middle of the clean-up
-    let n2: u64 = if tier.thorough { 30_000 } else { 800 };
+    let n2: u64 = if tier.thorough { 120_000 } else { 800 };
     run_parallel(report, n2, threads(), tier.budget_s * 0.1, |i, l| {
         cleanup_race_case(util::mix(seed, 0xC14_E000 + i), l);
     });
     // Part B
-    let real: u64 = if tier.thorough { 20_000 } else { 300 };
+    let real: u64 = if tier.thorough { 40_000 } else { 300 };
     run_parallel(report, real, threads().min(8), tier.budget_s * 0.25, |i, l| {
         run_case_b(util::mix(seed, 0xC14_C000 + i), l);
     });
@@ -1104,7 +1117,7 @@ pub fn memcheck_part(report: &Report, seed: u64) {
     for k in 0..shards {
         let out = format!("{logs}/summary{k}.json");
         let c = Command::new("valgrind")
-            .args(["--tool=memcheck", "--error-exitcode=0", "--leak-check=full", "--errors-for-leak-kinds=definite", "--num-callers=30"])
+            .args(["--tool=memcheck", "--error-exitcode=0", "--leak-check=full", "--show-leak-kinds=definite", "--errors-for-leak-kinds=definite", "--num-callers=30"])
             .arg(format!("--log-file={logs}/shard{k}.log"))
             .arg(&exe)
             .args(["C14-partB", &cases_per_shard.to_string(), &util::mix(seed, 0x3E3C + k).to_string(), &out])
@@ -1137,7 +1150,15 @@ pub fn memcheck_part(report: &Report, seed: u64) {
         let Ok(text) = std::fs::read_to_string(&log) else { continue };
         let (total, blocks) = parse_memcheck_log(&text);
         errors += total;
+        if total == 0 {
+            // loss records that are not errors (possibly lost / still reachable: thread stacks and
+            // thread-local storage of threads alive at exit) may still be listed
+            continue;
+        }
         for (kind, frame, head) in blocks {
+            if kind.contains("possibly-lost") || kind.contains("still-reachable") || kind.contains("indirectly-lost") {
+                continue;
+            }
             distinct.insert(format!("{kind}/{frame}"));
             l.violate(
                 Violation::new("X5", format!("X5/memcheck/{kind}/{frame}"), format!("valgrind memcheck reported '{kind}' while client threads raced with shutdown (first frame of the crate or its socket dependencies: {frame})"))
